@@ -10,7 +10,7 @@ import vcommon as vc
 
 SPEC = os.path.join(vc.VERIF, "spec", "Optimizer")
 TCFG = os.path.join(SPEC, "OptimizerTrace.cfg")
-INV = "TypeOK Descent ReportConsistent Budget FeasibleAlways Converged Bracketed Protocol HeldDescends"
+INV = "TypeOK MetaSchedule Descent ReportConsistent Budget FeasibleAlways Converged Bracketed Protocol HeldDescends"
 
 
 _raw_load_findings = vc.load_findings
@@ -33,10 +33,10 @@ def _load_findings_latest():
 vc.load_findings = _load_findings_latest
 
 
-def _design_cfg(path, budgets, boxes, objs, maxrank, maxinner, live=False, pols='"auto", "ignore", "keep"'):
+def _design_cfg(path, budgets, boxes, objs, maxrank, maxinner, live=False, pols='"auto", "ignore", "keep"', metans="3"):
     with open(path, "w") as f:
-        f.write("SPECIFICATION %s\nCONSTANTS\n  Budgets = {%s}\n  Pols = {%s}\n  Objs <- %s\n  MaxRank = %d\n  MaxInner = %d\n"
-                "  Boxes <- %s\n  KConv = 1000\n  KConvX = 10\n" % ("Spec" if live else "SafetySpec", budgets, pols, objs, maxrank, maxinner, boxes))
+        f.write("SPECIFICATION %s\nCONSTANTS\n  MetaNs = {%s}\n  Budgets = {%s}\n  Pols = {%s}\n  Objs <- %s\n  MaxRank = %d\n  MaxInner = %d\n"
+                "  Boxes <- %s\n  KConv = 1000\n  KConvX = 10\n" % ("Spec" if live else "SafetySpec", metans, budgets, pols, objs, maxrank, maxinner, boxes))
         if live:
             f.write("INVARIANTS TypeOK Budget\nPROPERTY Terminates\n")
         else:
@@ -155,14 +155,14 @@ def run(tier, seed):
         consts = ('1, 3', "BoxesQ1", "ObjsOne", 1, 1)
     else:
         consts = ('0, 1, 2, 3', "BoxesQ", "ObjsAll", 1, 1)
-    _design_cfg(cfg, *consts)
+    _design_cfg(cfg, *consts, metans="3" if quick else "0, 3")
     r = vc.model_check(SPEC, "Optimizer", cfg, coverage=True, timeout=2400, heap="3g", workers=min(vc.NCPU, 8))
-    ck.add_model("Optimizer/safety", r, "Budgets={%s} Boxes=%s Objs=%s MaxRank=%d MaxInner=%d Pols=all" % consts)
+    ck.add_model("Optimizer/safety", r, "Budgets={%s} Boxes=%s Objs=%s MaxRank=%d MaxInner=%d Pols=all MetaNs=%s" % (consts + ("{3}" if quick else "{0,3}",)))
     if r.invariant:
         ck.violation("design model Optimizer violates %s" % r.invariant, [r.out[-6000:]], tag="model")
     cfgl = os.path.join(wd, "live.cfg")
     lconsts = ('0, 3' if quick else '0, 2, 3', "BoxesL", "ObjsOne", 1, 1)
-    _design_cfg(cfgl, *lconsts, live=True, pols='"keep"' if quick else '"auto", "keep"')
+    _design_cfg(cfgl, *lconsts, live=True, pols='"keep"' if quick else '"auto", "keep"', metans="0")
     r = vc.model_check(SPEC, "Optimizer", cfgl, timeout=2400, heap="3g", workers=min(vc.NCPU, 8))
     ck.add_model("Optimizer/liveness", r, "Budgets={%s} Boxes=%s Objs=%s MaxRank=%d MaxInner=%d Pols=%s; WF on loop" % (lconsts + ("{keep}" if quick else "{auto,keep}",)))
     if r.invariant:
